@@ -994,6 +994,10 @@ def _analyze(self, fn, args, chain=(), subst=None, facts=None):
                         continue
                 v = self.eval_rv(fn, st, s["rv"], s)
                 self.write_place(fn, st, s["lhs"], v)
+                if s["rv"]["k"] == "use" and "p" not in s["lhs"]:
+                    sl_ = op_local(s["rv"]["a"], pure=True)
+                    if sl_ is not None and ("fact", sl_) in st:
+                        st[("fact", s["lhs"]["l"])] = st[("fact", sl_)]
                 if self.invariants and s["rv"]["k"] == "agg" and s["rv"].get("adt") in self.invariants and v["k"] == "agg":
                     for fi, (ilo, ihi) in self.invariants[s["rv"]["adt"]].items():
                         fv = v["f"].get(fi)
@@ -1054,6 +1058,20 @@ def _analyze(self, fn, args, chain=(), subst=None, facts=None):
         elif k == "return":
             summ.returns = True
             rv0 = st.get(0) or top_ty(fn.get("output") or "")
+            pend = st.get(("fact", 0))
+            if pend and rv0["k"] == "int" and rv0["lo"] == 0 and rv0["hi"] == 1:
+                # a boolean returned unbranched (`a && range.contains(&x)`): return it once as true and once as false, each with what
+                # it implies, so that the caller's branch on the result learns it
+                for truth in (True, False):
+                    st2 = dict(st)
+                    st2.pop(("fact", 0), None)
+                    self._apply_fact(fn, st2, pend, truth)
+                    st2[0] = const(1 if truth else 0, rv0["t"])
+                    work.append((b, st2, tctrl, onpath, len(blk["s"])))
+                continue
+            if rv0["k"] == "enum" and st.get("#tc") and not rv0["t"]:
+                # which variant is returned was decided by input-derived data: the caller's branch on it is input-driven too
+                rv0 = dict(rv0, t=True)
             summ.ret = join(summ.ret, rv0)
             fc = st.get("#facts") or {}
             summ.n_out += 1
